@@ -238,14 +238,22 @@ def check(run):
     # the three TLC runs are independent: run them side by side, replay as each finishes
     with ThreadPoolExecutor(max_workers=3) as ex:
         futs = [(cfg, ex.submit(run.tlc, 'Reader', cfg, None, 1)) for cfg in cfgs]   # 1 worker: strict BFS, deterministic levels
+        import time as _t
         for cfg, fu in futs:
-            ne, ns = _replay_graph(run, cfg, fu.result())
+            r = fu.result()
+            _t0 = _t.time()
+            ne, ns = _replay_graph(run, cfg, r)
+            run.notes.append('%s: %d edges replayed in %.1fs' % (cfg, ne, _t.time() - _t0))
             tot_e += ne
             tot_s += ns
     run.extra['graph_edges'] = tot_e
     run.extra['graph_states_with_successors'] = tot_s
     from . import c10_api, c10_memo
+    _t0 = _t.time()
     c10_memo.memo_histories(run)
+    run.notes.append('memo part in %.1fs' % (_t.time() - _t0))
+    _t0 = _t.time()
     c10_api.histories(run)
+    run.notes.append('api part in %.1fs' % (_t.time() - _t0))
     if not run.samples:
         run.samples.append({'note': 'no sample'})
